@@ -8,6 +8,7 @@ From SU.Spec Require Import MidiSpec.
 From SU.Proofs Require Import MidiParserProofs MidiLiftProofs.
 From SU.Proofs Require Import MidiExtraProofs.
 From SU.Proofs Require Import MidiKillers.
+From SU.Proofs Require Import MidiIgnoredProofs.
 Open Scope Z_scope.
 
 (** the messages the byte-at-a-time parser completes are exactly those of the
@@ -126,6 +127,36 @@ Theorem C06_pitch_bend_bytes_any_state : forall r lsb msb,
   = observe (apply_msg r (MPitchBend (r_channel r) msb lsb)).
 Proof. exact pitch_bend_bytes_any_state. Qed.
 
+(** unsupported message types inside a stream: key pressure, program change, channel pressure on ANY channel (the listened one included), every system common byte F0..F7 (SysEx payloads, F1/F2/F3 data, undefined F4/F5, tune request) and voice messages of other channels, followed by any data bytes, change no getter *)
+Theorem C06_ignored_bytes_transparent : forall ch l1 s d l2,
+  Forall is_byte (l1 ++ l2) ->
+  ignored_status ch s -> Forall data_byte d ->
+  at_boundary l2 ->
+  observe (run_bytes ch (l1 ++ s :: d ++ l2)) = observe (run_bytes ch (l1 ++ l2)).
+Proof. exact C06_ignored_bytes_transparent. Qed.
+
+(** the same with real-time bytes interleaved inside the ignored message *)
+Theorem C06_ignored_bytes_rt_transparent : forall ch l1 s d l2,
+  Forall is_byte (l1 ++ l2) ->
+  ignored_status ch s -> Forall data_or_rt d ->
+  at_boundary l2 ->
+  observe (run_bytes ch (l1 ++ s :: d ++ l2)) = observe (run_bytes ch (l1 ++ l2)).
+Proof. exact C06_ignored_bytes_rt_transparent. Qed.
+
+(** a complete SysEx F0 ... F7 *)
+Theorem C06_sysex_transparent : forall ch l1 d l2,
+  Forall is_byte (l1 ++ l2) ->
+  Forall data_or_rt d ->
+  at_boundary l2 ->
+  observe (run_bytes ch (l1 ++ 240 :: d ++ 247 :: l2)) = observe (run_bytes ch (l1 ++ l2)).
+Proof. exact C06_sysex_transparent. Qed.
+
+(** the boundary condition is MIDI 1.0 itself: the inserted status takes over running status *)
+Theorem C06_ignored_boundary_needed :
+  obs_note (observe (run_bytes 0 ([144; 60; 100] ++ 160 :: [60; 50] ++ [62; 100]))) = 60 /\
+  obs_note (observe (run_bytes 0 ([144; 60; 100] ++ [62; 100]))) = 62.
+Proof. exact ignored_boundary_condition_needed_key_pressure. Qed.
+
 Print Assumptions C06_parser_decodes.
 Print Assumptions C06_framing.
 Print Assumptions C06_realtime_transparent.
@@ -142,3 +173,7 @@ Print Assumptions C06_cc_bytes_any_state.
 Print Assumptions C06_note_on_bytes_any_state.
 Print Assumptions C06_note_off_bytes_any_state.
 Print Assumptions C06_pitch_bend_bytes_any_state.
+Print Assumptions C06_ignored_bytes_transparent.
+Print Assumptions C06_ignored_bytes_rt_transparent.
+Print Assumptions C06_sysex_transparent.
+Print Assumptions C06_ignored_boundary_needed.
